@@ -21,6 +21,7 @@ Implementation: Converts Violation objects to SARIF structure with proper indexi
 from typing import Any
 
 from src import __version__
+from src.core.cli_utils import _sanitize_string
 from src.core.types import Violation
 
 
@@ -174,7 +175,7 @@ class SarifFormatter:
             "ruleId": violation.rule_id,
             "level": "error",
             "message": {
-                "text": violation.message,
+                "text": _sanitize_string(violation.message),
             },
             "locations": [self._create_location(violation)],
         }
@@ -191,7 +192,7 @@ class SarifFormatter:
         return {
             "physicalLocation": {
                 "artifactLocation": {
-                    "uri": violation.file_path,
+                    "uri": _sanitize_string(str(violation.file_path)),
                 },
                 "region": {
                     "startLine": violation.line,
